@@ -465,10 +465,15 @@ def parse_rate_out(line):
 
 
 # ---------------------------------------------------------------- the model driver
+class HarnessError(Exception):
+    """the verification machinery itself is not in working order (model driver missing or crashing): an internal error (exit 2),
+    never a finding about the implementation"""
+
+
 class Driver:
     def __init__(self):
         if not os.path.exists(DRIVER):
-            raise RuntimeError("driver not built: " + DRIVER)
+            raise HarnessError("driver not built: " + DRIVER)
 
     def run(self, lines):
         if not lines:
@@ -479,7 +484,7 @@ class Driver:
         if out and out[-1] == "":
             out.pop()
         if p.returncode != 0 or len(out) != len(lines):
-            raise RuntimeError("driver failed rc=%s out=%d in=%d err=%s" % (
+            raise HarnessError("driver failed rc=%s out=%d in=%d err=%s" % (
                 p.returncode, len(out), len(lines), p.stderr.decode()[:500]))
         return out
 
